@@ -77,7 +77,7 @@ def bpms(r):
 
 def plan(tier, seed):
     K = 4 if tier == "quick" else 5
-    shards = [(r, i, K) for r in RES for i in range(5)] + [("subus", r) for r in (192, 960, 480)] + [("long", r) for r in RES]
+    shards = [(r, i, K) for r in RES for i in range(5)] + [("subus", r) for r in (192, 960, 480)] + [("long", r) for r in RES] + [("far", r) for r in (1, 192)]
     return dict(shards=shards, bounds=dict(resolutions=list(RES), segments=K, gaps=list(GAPS), bpm_thousandths={str(r): list(bpms(r)) for r in RES}), budget_s=900 if tier == "thorough" else 300)
 
 
@@ -97,6 +97,8 @@ def build(r, tempo):
 def run_shard(shard, ctx):
     if shard[0] == "subus":
         return _subus(ctx, shard[1])
+    if shard[0] == "far":
+        return _far(ctx, shard[1])
     if shard[0] == "long":
         r = shard[1]
         B = bpms(r)
@@ -142,6 +144,63 @@ def run_shard(shard, ctx):
                     e1.report(ctx, "monotone", text, src(strict), ["monotone"], got, "resolution %d tempo map %r" % (r, [list(x) for x in tempo]), extra_case=dict(strict=strict))
 
 
+FAR_SRC = '''
+def probe(c):
+    us = lambda td: (td.days * 86400 + td.seconds) * 10**6 + td.microseconds
+    be = c.sync_track.bpm_events
+    at = {}
+    evs = list(be) + list(c.sync_track.time_signature_events) + list(c.global_events_track.text_events)
+    bad = []
+    for dd in c.instrument_tracks.values():
+        for tr in dd.values():
+            evs += list(tr.note_events) + list(tr.star_power_events) + list(tr.track_events)
+            for e in tr.note_events:
+                if e.end_timestamp < e.timestamp:
+                    bad.append(["note ends before it starts", e.tick])
+                at.setdefault(e.end_tick, set()).add(us(e.end_timestamp))
+    for e in evs:
+        at.setdefault(e.tick, set()).add(us(e.timestamp))
+    for t in list(at):
+        at[t].add(us(be.timestamp_at_tick_no_optimize_return(t)))
+    ticks = sorted(at)
+    for t in ticks:
+        if len(at[t]) != 1:
+            bad.append(["equal ticks, different timestamps", t, sorted(at[t])])
+    for a, b in zip(ticks, ticks[1:]):
+        if max(at[a]) > min(at[b]) or (STRICT and a >= FIRST_CHANGE and max(at[a]) == min(at[b])):
+            bad.append(["events out of order", a, sorted(at[a]), b, sorted(at[b])])
+    return bad if bad else "monotone"
+'''
+
+
+def _far(ctx, r):
+    """Tempo changes very far into the song (a slow first segment of 10^5 .. 10^9 ticks): absolute
+    times of 10^9 .. 6*10^13 seconds, where float seconds no longer resolve microseconds."""
+    slow = 1 if r == 1 else 1000
+    for T in (10**5, 10**6, 3 * 10**7, 10**9):
+        if T * 60 * 10**3 // (slow * r) >= 8 * 10**13:
+            continue  # beyond the timedelta range
+        for n1 in (3 * 10**10 // r, 120000, 10**9):
+            for n2 in (n1, 1000, 3 * 10**10 // r):
+                tempo = [(0, slow), (T, n1), (T + 3, n2), (T + 4, n1)]
+                ticks = list(range(T - 3, T + 10))
+                sync = ["%d = B %d" % tn for tn in tempo] + ["0 = TS 4"] + ["%d = TS 3" % t for t in ticks[::2]]
+                ev = ['%d = E "x"' % t for t in ticks[::3]]
+                a = ["%d = N %d %d" % (t, t % 5, 1 + t % 3) for t in ticks]
+                b = ["%d = N 7 2" % t for t in ticks[::2]]
+                text = mk(res=r, sync=sync, events=ev, tracks=[("ExpertSingle", a), ("HardDrums", b)])
+                strict = all(n * r <= 3 * 10**10 for _, n in tempo[1:])
+                srcp = "STRICT = %r\nFIRST_CHANGE = %d\n" % (strict, T) + FAR_SRC.strip("\n")
+                got = e1.run_probe(e1.compile_probe(srcp), text)
+                ctx.case((r, tuple(tempo)), sample=lambda: dict(resolution=r, tempo=[list(x) for x in tempo]))
+                ctx.evaluations += 3 * len(ticks)
+                ctx.hist["far_maps"] += 1
+                if isinstance(got, list) and got[:1] == ["raises"]:
+                    ctx.hist["undecided(parse or query raises; owned by C01/C08/C15)"] += 1
+                elif got != "monotone":
+                    e1.report(ctx, "monotone", text, srcp, ["monotone"], got, "resolution %d tempo map %r (tempo changes %d ticks into the song)" % (r, [list(x) for x in tempo], T), extra_case=dict(far=[strict, T]))
+
+
 def _subus(ctx, r):
     """Sub-microsecond ticks: one or two tempo changes after segments of EVERY length 1..48, so that
     the fractional microsecond part of a completed segment sweeps the whole unit interval."""
@@ -164,4 +223,7 @@ def _subus(ctx, r):
 
 
 def replay(case):
+    if case.get("far"):
+        srcp = "STRICT = %r\nFIRST_CHANGE = %d\n" % tuple(case["far"]) + FAR_SRC.strip("\n")
+        return e1.replay_text_case(case, e1.compile_probe(srcp), "monotone", srcp)
     return e1.replay_text_case(case, probes[bool(case.get("strict"))], "monotone", PROBE_SRC)
